@@ -225,6 +225,9 @@ def run(chk, replay):
         # the working directory changes between slices of plotfiles typed under a relative name (PoolEnv.tla)
         from harness import poolenv
         poolenv.tool_phase(chk, "mandoline-plotfile")
+        # hierarchies whose levels refine by 4, or by different ratios from one jump to the next (Refine.tla)
+        from harness import refine
+        refine.phase(chk, "sliceplt")
 
 
 def _run(chk, replay):
